@@ -7,9 +7,48 @@ def Float.rustMax (a b : Float) : Float :=
 def Float.rustMin (a b : Float) : Float :=
   if a.isNaN then b else if b.isNaN then a else if b < a then b else a
 def Float.trunc (a : Float) : Float := if a < 0 then Float.ceil a else Float.floor a
-def Float.powiGo (x : Float) : Nat → Float
-  | 0 => 1.0
-  | n + 1 => x * Float.powiGo x n
+/-- compiler-rt's `__powidf2` (what `f64::powi` lowers to): square-and-multiply -/
+def Float.powiGo (fuel : Nat) (a r : Float) (b : Nat) : Float :=
+  match fuel with
+  | 0 => r
+  | fuel + 1 =>
+    let r := if b % 2 == 1 then r * a else r
+    let b := b / 2
+    if b == 0 then r else Float.powiGo fuel (a * a) r b
+def Float.rustPowi (a : Float) (n : Int) : Float :=
+  let r := Float.powiGo 64 a 1.0 n.natAbs
+  if n < 0 then 1.0 / r else r
+
+/-! Rust's `f64::cbrt` is the correctly rounded CORE-MATH port (libm ≥ 0.2.12); C's `cbrt`
+(what `Float.cbrt` calls) is not.  `cbrtCR` corrects the C result to the nearest double by exact
+integer comparisons of the cubes of the rounding midpoints. -/
+namespace CbrtCR
+/-- positive finite double with bit pattern `b` as `m * 2^e` -/
+def decode (b : Nat) : Nat × Int :=
+  let ef := b / 2 ^ 52 % 2048
+  let mf := b % 2 ^ 52
+  if ef == 0 then (mf, (-1074 : Int)) else (2 ^ 52 + mf, ((ef : Nat) : Int) - 1075)
+/-- is `((v(b) + v(b+1)) / 2)^3 ≤ x` where `x = X * 2^F`? (`b`, `b+1` bit patterns of positive doubles) -/
+def midCubeLe (b : Nat) (X : Nat) (F : Int) : Bool :=
+  let (m1, e1) := decode b
+  let (m2, e2) := decode (b + 1)
+  let em := min e1 e2
+  let M := m1 * 2 ^ (e1 - em).toNat + m2 * 2 ^ (e2 - em).toNat
+  let a : Int := 3 * (em - 1)
+  if a ≥ F then M ^ 3 * 2 ^ (a - F).toNat ≤ X else M ^ 3 ≤ X * 2 ^ (F - a).toNat
+def fix (x : Float) : Float :=
+  let xb := x.toBits.toNat
+  let (X, F) := decode xb
+  let y0 := (Float.cbrt x).toBits.toNat
+  -- move up while the midpoint above is still ≤ the true root, then down
+  let up := (List.range 4).foldl (fun y _ => if midCubeLe y X F then y + 1 else y) y0
+  let dn := (List.range 4).foldl (fun y _ => if y > 0 && !(midCubeLe (y - 1) X F) then y - 1 else y) up
+  Float.ofBits (UInt64.ofNat dn)
+end CbrtCR
+
+def Float.cbrtCR (x : Float) : Float :=
+  if x.isNaN || x.isInf || x == 0 then x
+  else if x < 0 then -(CbrtCR.fix (-x)) else CbrtCR.fix x
 
 instance : Flt Float where
   ofNat n := n.toFloat
@@ -20,8 +59,8 @@ instance : Flt Float where
   beq a b := a == b
   rem a b := a - b * Float.trunc (a / b)
   pow := Float.pow
-  powi a n := Float.pow a (Float.ofInt n)
-  cbrt := Float.cbrt
+  powi := Float.rustPowi
+  cbrt := Float.cbrtCR
   sqrt := Float.sqrt
   abs := Float.abs
   round := Float.round
